@@ -12,7 +12,7 @@ META = {
                  "peek_type's own contract for byte 0xFF; R07.3 the TAG arm skips the enclosed item; R07.4 read_int "
                  "consumes 1/2/4/8 bytes big-endian for ai 24..27 and every reader rejects exactly the reserved ai values "
                  "(tabulated over all 32 ai values with a concrete mini-evaluator of the guards); R07.5 every reader "
-                 "takes its head through read_cbor_type. R07.1/R07.3 tabulate skip_item per (major type, class of additional information); R07.4 tracks input byte -> bit position; R07.8 is R03.8 on the decoder. R07.6 also tabulates read_array_start / read_map_start over 8 major types x 32 additional-information values: returned count, and the indefinite-length flag stored on every accepting path. R07.4 tabulates read_int per additional-information value over every path through the function and every way the argument can be split across refills (assembly.py: integer locals concrete, input bytes as byte-index -> bit-position maps, the window size chosen exhaustively); each returning path must yield the RFC 8949 big-endian layout and consume exactly the argument. Where that walk meets a construct it does not model, every alternative assembly loop (a fast path over buffered bytes, the byte-by-byte path) is analysed separately; window-state branches select the alternative. R07.9: the string read_string returns is only ever extended (no assign / = / clear). R07.10 = R05.5. R07.11 = R05.2 (every read through the cursor and every move of it stays inside the window: where an item lies relative to the 64 KiB refills does not change what is decoded). R07.12 = R05.6. R07.1 evaluates constant rule tables indexed by the major type and counted loops in skip_item's dispatch. R07.4 reports a path on which read_int reads or moves beyond the buffered bytes with the window sizes of that path.",
+                 "takes its head through read_cbor_type. R07.1/R07.3 tabulate skip_item per (major type, class of additional information); R07.4 tracks input byte -> bit position; R07.8 is R03.8 on the decoder. R07.6 also tabulates read_array_start / read_map_start over 8 major types x 32 additional-information values: returned count, and the indefinite-length flag stored on every accepting path. R07.4 tabulates read_int per additional-information value over every path through the function and every way the argument can be split across refills (assembly.py: integer locals concrete, input bytes as byte-index -> bit-position maps, the window size chosen exhaustively); each returning path must yield the RFC 8949 big-endian layout and consume exactly the argument. Where that walk meets a construct it does not model, every alternative assembly loop (a fast path over buffered bytes, the byte-by-byte path) is analysed separately; window-state branches select the alternative. R07.9: the string read_string returns is only ever extended (no assign / = / clear). R07.10 = R05.5. R07.11 = R05.2 (every read through the cursor and every move of it stays inside the window: where an item lies relative to the 64 KiB refills does not change what is decoded). R07.12 = R05.6. R07.1 evaluates constant rule tables indexed by the major type and counted loops in skip_item's dispatch. R07.4 reports a path on which read_int reads or moves beyond the buffered bytes with the window sizes of that path. R07.2 also decides the polarity of every stop-code test that controls a read_break(): the call is reached where the test says the next byte IS the stop code (then / else branch, or the exit of a `while (peek != BREAK)` loop). R07.13: the explicit work stack of skip_item - read_break() only for a level flagged indefinite and followed by a pop in the same list, a definite level popped under count == 0 and counted down otherwise, every `continue` in front of the head preceded by a pop; a different discipline (count written elsewhere in the loop) is unrecognised, the recursive form has no such obligations.",
     "explanation": "Structural/necessary conditions decided from the decoder's source: exhaustiveness of the dispatch, "
                    "caller/callee belief agreement on the stop code, finite tabulation of the additional-information "
                    "domain. Does not decide value equality for all encodings beyond the width table.",
